@@ -664,7 +664,7 @@ func dedupCands(cs []symex.Candidate) []symex.Candidate {
 			continue
 		}
 		persite := c.Site + "|" + c.Known
-		if seen[persite] >= 12 && !c.UF || seen[persite] >= 48 {
+		if seen[persite] >= 40 && !c.UF || seen[persite] >= 64 {
 			continue
 		}
 		seen[key]++
